@@ -9,7 +9,7 @@ from ..guards import RoleEval, paths, simulate
 from ..pm import AnalysisError, unparse
 from ..report import Check
 from ..sym import PathResolver, Resolver, Term, mentions, path_of, show, walk
-from .common import body_entry, const_value, is_path, iter_base, iter_precedes, loc, loops_over, method_calls_on, strip
+from .common import body_entry, const_value, early_exits, is_path, iter_base, iter_precedes, loc, loops_over, method_calls_on, strip
 
 SELF = ("param", "self")
 
@@ -58,7 +58,7 @@ def p1_process_phases(check: Check, rule: str = "P1") -> None:
         h, d, sites = clear_loops[0]
         unguarded = all(not [g for g in cfg.must_guards(n) if g[2] in cfg.loop_body(h)] for n in sites)
         top = not cfg.must_guards(h) and not cfg.enclosing_loops(h)
-        ok = unguarded and top
+        ok = unguarded and top and not early_exits(cfg, h)
     check.require(ok, rule, "Engine.process/clear-all",
                   "the fuzzy output of every output variable is cleared unconditionally"
                   if ok else "no unconditional loop clears the fuzzy output of every output variable", loc(fn, clear_loops[0][0] if clear_loops else fn.node))
@@ -84,7 +84,7 @@ def p1_process_phases(check: Check, rule: str = "P1") -> None:
         forward = d == "forward"
         top = not cfg.must_guards(h) and not cfg.enclosing_loops(h)
         after_clear = bool(clear_loops) and cfg.dominates(clear_loops[0][0], h) and h not in cfg.loop_body(clear_loops[0][0])
-        ok = exact and forward and top and after_clear
+        ok = exact and forward and top and after_clear and not early_exits(cfg, h)
         why = (f"activation loop: block activated iff enabled={exact} (enabled->{res[True]}, disabled->{res[False]}), "
                f"in list order={forward}, unconditional loop={top}, after the clearing loop={after_clear}")
     check.require(ok, rule, "Engine.process/activate-enabled-blocks",
@@ -97,7 +97,7 @@ def p1_process_phases(check: Check, rule: str = "P1") -> None:
         unguarded = all(not [g for g in cfg.must_guards(n) if g[2] in cfg.loop_body(h)] for n in sites)
         top = not cfg.must_guards(h) and not cfg.enclosing_loops(h)
         after = cfg.dominates(act_loops[0][0], h) and h not in cfg.loop_body(act_loops[0][0])
-        ok = unguarded and top and after
+        ok = unguarded and top and after and not early_exits(cfg, h)
     check.require(ok, rule, "Engine.process/defuzzify-all",
                   "after the activation loop, every output variable is defuzzified" if ok else
                   "defuzzification of all output variables does not follow the activation loop", loc(fn, defz_loops[0][0] if defz_loops else fn.node))
@@ -218,6 +218,11 @@ def modify_rules(check: Check, p5: bool = True, l1: bool = True, h1: bool = True
     ev = RoleEval(r, classify)
     outside = {n for n in cfg.nodes if n not in body}
     if p5:
+        ee = early_exits(cfg, head)
+        check.require(not ee and direction == "forward", "P5", "Consequent.modify/all-conclusions",
+                      "every conclusion of the rule is processed (no break/return inside the loop over conclusions)" if not ee else
+                      f"the loop over conclusions is left early at line {ee[0].lineno} (`{type(ee[0].ast).__name__.lower()}`): conclusions after that point "
+                      "contribute nothing, e.g. everything after a conclusion on a disabled variable", loc(fn, ee[0] if ee else head))
         res = {}
         for en in (True, False):
             env = {"enabled": en, "has_variable": True, "has_term": True, "is_output": True, "loaded": True}
@@ -433,7 +438,7 @@ def p7_aggregated_membership(check: Check, rule: str = "P7") -> None:
                   "every activated term's membership is folded into the accumulator with self.aggregation.compute"
                   if fold_ok else why, loc(fn, n))
     loops = loops_over(r, lambda b: is_path(b, "self.terms"))
-    ok = bool(loops) and loops[0][2] == "forward"
+    ok = bool(loops) and loops[0][2] == "forward" and not early_exits(cfg, loops[0][0])
     check.require(ok, rule, "Aggregated.membership/all-terms", "the fold ranges over all of self.terms", loc(fn, loops[0][0] if loops else n))
 
 
